@@ -13,13 +13,19 @@
 # limitations under the License.
 
 from typing import Any
-from collections.abc import Callable
+from collections.abc import Callable, Mapping
 
 import optax
 
 import jax
 from flax import core, struct
 from flax.linen.fp8_ops import OVERWRITE_WITH_GRADIENT
+
+
+def _has_owg(tree: Any) -> bool:
+  # The parameter tree is any pytree, e.g. a bare array, where `in` is not a
+  # key lookup.
+  return isinstance(tree, Mapping) and OVERWRITE_WITH_GRADIENT in tree
 
 
 class TrainState(struct.PyTreeNode):
@@ -93,7 +99,7 @@ class TrainState(struct.PyTreeNode):
       and ``opt_state`` updated by applying ``grads``, and additional attributes
       replaced as specified by ``kwargs``.
     """
-    if OVERWRITE_WITH_GRADIENT in grads:
+    if _has_owg(grads):
       grads_with_opt = grads['params']
       params_with_opt = self.params['params']
     else:
@@ -107,7 +113,7 @@ class TrainState(struct.PyTreeNode):
 
     # As implied by the OWG name, the gradients are used directly to update the
     # parameters.
-    if OVERWRITE_WITH_GRADIENT in grads:
+    if _has_owg(grads):
       new_params = {
         'params': new_params_with_opt,
         OVERWRITE_WITH_GRADIENT: grads[OVERWRITE_WITH_GRADIENT],
@@ -126,7 +132,7 @@ class TrainState(struct.PyTreeNode):
     """Creates a new instance with ``step=0`` and initialized ``opt_state``."""
     # We exclude OWG params when present because they do not need opt states.
     params_with_opt = (
-      params['params'] if OVERWRITE_WITH_GRADIENT in params else params
+      params['params'] if _has_owg(params) else params
     )
     opt_state = tx.init(params_with_opt)
     return cls(
